@@ -9,6 +9,37 @@ func registerMoreIntrinsics(e *Engine) {
 	in := e.intrinsics
 	nop := func(fr *frame, args []value) value { return nil }
 	// runtime debug settings: defaults
+	// maps.clone (runtime linkname): a shallow copy of the map held in an interface
+	in["maps.clone"] = func(fr *frame, args []value) value {
+		x := args[0].(iface)
+		switch m := x.v.(type) {
+		case *omap:
+			if m == nil {
+				return x
+			}
+			c := newOmap(m.keyType)
+			c.keys = append([]value(nil), m.keys...)
+			c.vals = make([]value, len(m.vals))
+			for i := range m.vals {
+				c.vals[i] = copyVal(m.vals[i])
+			}
+			c.dead = append([]bool(nil), m.dead...)
+			c.symk = append([]bool(nil), m.symk...)
+			c.nsym, c.n = m.nsym, m.n
+			for k, v := range m.idx {
+				c.idx[k] = v
+			}
+			return iface{t: x.t, v: c}
+		case map[value]value:
+			c := make(map[value]value, len(m))
+			for k, v := range m {
+				c[k] = copyVal(v)
+			}
+			return iface{t: x.t, v: c}
+		}
+		fr.r.inconclusive("maps.clone of %T", x.v)
+		return x
+	}
 	in["(*internal/godebug.Setting).Value"] = func(fr *frame, args []value) value { return "" }
 	in["(*internal/godebug.Setting).IncNonDefault"] = nop
 	in["(*internal/godebug.Setting).Undocumented"] = func(fr *frame, args []value) value { return false }
